@@ -200,7 +200,7 @@ impl Ctx {
     /// A state cap was hit: what was explored below it stands, the run is not exhaustive.
     pub fn cap_hit(&mut self, label: &str, cap: usize) {
         self.exhaustive = false;
-        self.note(&format!("{}: state cap of {} states hit - the real object has far more reachable states than the reference model; the search is NOT closed, the verdict covers the {} shallowest states only", label, cap, cap));
+        self.note(&format!("{}: search stopped early (state cap of {} states, 5000 violating edges, or the per-search wall-clock budget) - the real object has far more or far larger reachable states than the reference model; the search is NOT closed, the verdict covers the shallowest states only", label, cap));
     }
 
     /// Vacuity guard evaluated on the reference/model side only.
